@@ -123,7 +123,7 @@ class Interp:
                 m = n['member']
                 if m in base:
                     return base[m]
-                raise OutOfFragment('field %s not modelled' % m)
+                raise OutOfFragment('field %s not modelled at %s' % (m, fn.loc(n)))
             if n.get('mk') == 'method':
                 return ('boundmethod', base, n)
             raise OutOfFragment('member access %s on non-object at %s' % (n.get('member'), fn.loc(n)))
